@@ -12,6 +12,20 @@ use dsi_bitstream::prelude::*;
 
 type Wr<E, W> = BufBitWriter<E, Rec<W, RN>>;
 
+/// up to 24 symbolic bytes
+pub fn any_bytes<S: Src, const L: usize>(s: &mut S) -> [u8; L] {
+    assert!(L <= 24);
+    let a = any_array::<u8, S, 12>(s);
+    let b = any_array::<u8, S, 12>(s);
+    let mut out = [0u8; L];
+    let mut i = 0;
+    while i < L {
+        out[i] = if i < 12 { a[i] } else { b[i - 12] };
+        i += 1;
+    }
+    out
+}
+
 #[inline(always)]
 fn byte_bit<E: En>(b: u8, t: usize) -> bool {
     // stream order inside a byte: bit 7-t (BE) / t (LE)
@@ -25,7 +39,7 @@ where
 {
     let p = any_writer_state::<W, S>(s);
     let (pre0, pre1) = (p.rec.words[0], p.rec.words[1]);
-    let buf = any_array::<u8, S, L>(s);
+    let buf = any_bytes::<S, L>(s);
     let len = s.usize_in(0, L);
     let idx = s.usize();
     s.assume(idx < p.f + 8 * len);
